@@ -463,6 +463,7 @@ pub fn run(ctx: &Ctx) -> i32 {
             // position: one third explosive (constructed or generated), the rest ordinary
             let want_explosive = i % 3 == 0;
             let mut single_reply = false;
+            let mut deep_thinker = false;
             let (pos, is_explosive): (Pos, bool) = if i % 6 == 1 {
                 // the side to move has a single legal move: every iteration's "last root move"
                 // is its only one
@@ -473,6 +474,10 @@ pub fn run(ctx: &Ctx) -> i32 {
                     }
                     None => (sample_position(&mut rng), false),
                 }
+            } else if i % 6 == 4 {
+                // a pawn endgame (see the long-budget runs below)
+                deep_thinker = true;
+                (if rng.chance(1, 4) { Pos::from_fen("6k1/5ppp/8/p7/8/8/5PPP/6K1 w - - 0 1").unwrap() } else { gen::pawn_endgame_position(&mut rng) }, false)
             } else if want_explosive {
                 let mut found = None;
                 for _ in 0..40 {
@@ -602,6 +607,24 @@ pub fn run(ctx: &Ctx) -> i32 {
                     warmups(&mut rng, &pos, &mut s);
                 }
                 scs.push(s);
+            }
+            // (c) long budgets in pawn endgames: the search completes many iterations before the
+            // deadline (ten, fifteen plies deep), values swing between them; whatever an engine
+            // does with its limit after a completed iteration shows here
+            if deep_thinker {
+                for _ in 0..8 {
+                    let mut s = base.clone();
+                    s.cost_node_ns = rng.log_range(1_000, 100_000);
+                    s.cost_read_ns = if rng.chance(1, 2) { 0 } else { rng.log_range(1, 1_000) };
+                    let nodes_budget = rng.log_range(30_000, 400_000);
+                    s.limit_ms = (nodes_budget * s.cost_node_ns / 1_000_000).max(1);
+                    s.depth = 64;
+                    if rng.chance(1, 4) {
+                        s.via_uci = true;
+                    }
+                    scs.push(s);
+                    res.probes.add("long_budget_runs_in_pawn_endgames", 1);
+                }
             }
             // cost cap per position, in nodes (deterministic): on this tree a position's
             // scenarios take 1-5 M nodes in total; an engine that polls rarely needs far more
